@@ -1,6 +1,7 @@
 package sctp
 
 import (
+	"strings"
 	"context"
 	"fmt"
 	"time"
@@ -868,6 +869,12 @@ func c19EndToEnd(j *Job) {
 	}
 	// (3) Karn's rule and ack delay over fault-enumerated transfers
 	modes := stdModes()
+	// an expiry of the retransmission timer against the acknowledgement that stops it
+	for _, mode := range modes[:2] {
+		for _, withY := range []bool{false, true} {
+			j.Explore(fmt.Sprintf("SE/%s/y%v", mode.Name, withY), staleExpiryScenario(withBase(mode.A, 1191, 0xFFFFFFFC, 4000), withBase(mode.B, 1191, 3, 4000), withY), Budget{D: 1}, nil)
+		}
+	}
 	var cases []xferCase
 	cases = append(cases, famW1(modes, []uint32{0}, 1)...)
 	cases = append(cases, famW1(modes[:1], []uint32{6}, 2)...)
@@ -952,6 +959,129 @@ func c19EndToEnd(j *Job) {
 		if j.capped() {
 			return
 		}
+	}
+}
+
+// t3Log watches the one trace the library leaves of a T3-rtx expiry it acts upon (collapsing
+// cwnd, marking everything outstanding for retransmission).  It is called with the association
+// lock held, so the state of the timer it reads is the state the expiry is applied to.
+type t3Log struct {
+	nopLogger
+	m  *Sim
+	a  *Association
+	ep int
+}
+
+func (l *t3Log) Debugf(f string, args ...any) {
+	if !strings.Contains(f, "T3-rtx timed out") || len(args) < 2 {
+		return
+	}
+	n, _ := args[1].(uint)
+	t := l.a.t3RTX
+	if t.state != rtxTimerStarted || t.nRtos != n {
+		what := "the timer has been stopped since (nothing is waiting for an acknowledgement)"
+		if t.state == rtxTimerStarted {
+			what = fmt.Sprintf("the timer has been stopped and started again since (the current run has expired %d times, this expiry is number %d of its run)", t.nRtos, n)
+		}
+		var out []string
+		q := l.a.inflightQueue
+		for i := 0; i < q.chunks.Len(); i++ {
+			if c := q.chunks.At(i); !c.acked {
+				out = append(out, fmt.Sprintf("TSN %d first sent %v ago", c.tsn, time.Since(c.since)))
+			}
+		}
+		l.m.Failf("timer.stale-expiry", "endpoint %d at %v acts on a T3-rtx expiry (window collapsed to one MTU, everything outstanding marked for retransmission) that belongs to an earlier run of the timer: %s; outstanding: %v", l.ep, l.m.S.Now(), what, out)
+	}
+}
+
+// staleExpiryScenario: the acknowledgement of the only outstanding message reaches the sender at
+// the very instant its T3-rtx timer expires.  Whichever the sender handles first, it may act
+// on the expiry only while that run of the timer is still the current one: an expiry decided
+// before the acknowledgement stopped (or restarted) the timer must not be applied afterwards.
+// withY: the application writes another message at the same instant.
+func staleExpiryScenario(a, b epCfg, withY bool) *Scenario {
+	return &Scenario{
+		Name:    "stale-expiry",
+		Horizon: 60 * time.Second,
+		Setup: func(m *Sim) {
+			m.S.SuspendTimers = true
+			m.S.SuspendTimersLate = true
+		},
+		Body: func(m *Sim) {
+			if !m.Connect(a, b) {
+				m.Failf("connect", "handshake failed: %v %v", m.Err[0], m.Err[1])
+				m.closeFailedTransports()
+				m.CloseBoth()
+				return
+			}
+			A := m.As[0]
+			A.lock.Lock()
+			A.log = &t3Log{m: m, a: A, ep: 0}
+			A.lock.Unlock()
+			sa, _ := A.OpenStream(1, PayloadTypeWebRTCBinary)
+			sb, _ := m.As[1].OpenStream(1, PayloadTypeWebRTCBinary)
+			m.streamsSeen = append(m.streamsSeen, sa, sb)
+			var got []string
+			rd := m.Go("readB", func() {
+				buf := make([]byte, 2000)
+				for {
+					n, _, err := sb.ReadSCTP(buf)
+					if err != nil {
+						return
+					}
+					m.mu.Lock()
+					got = append(got, string(buf[:n]))
+					m.mu.Unlock()
+				}
+			})
+			m.Sleep(3 * time.Second) // handshake traffic settled, timers idle
+			t0 := m.S.Now()
+			var due time.Duration
+			armed := false
+			m.W.delayFn = func(p *wpkt) time.Duration {
+				if !armed || p.from != 1 || p.dec == nil {
+					return 0
+				}
+				for _, c := range p.dec.Chunks {
+					if c.Typ == wSACK {
+						armed = false
+						if d := due - (m.S.Now() + m.W.delay[1]); d > 0 {
+							return d
+						}
+					}
+				}
+				return 0
+			}
+			X := payload(1, 0, 40)
+			_, _ = sa.WriteSCTP(X, PayloadTypeWebRTCBinary)
+			if !m.WaitUntil("x-sent", 5*time.Second, func() bool { return A.t3RTX.state == rtxTimerStarted }) || m.S.Now() != t0 {
+				// a schedule in which the message did not leave at once: not the situation examined
+				m.Observe("not-at-once")
+				m.CloseBoth()
+				m.Join(rd)
+				return
+			}
+			due = t0 + time.Duration(A.t3RTX.rto)*time.Millisecond
+			armed = true
+			if withY {
+				m.Sleep(due - m.S.Now())
+				_, _ = sa.WriteSCTP(payload(1, 1, 41), PayloadTypeWebRTCBinary)
+			}
+			want := 1
+			if withY {
+				want = 2
+			}
+			m.WaitUntil("delivered", 30*time.Second, func() bool {
+				m.mu.Lock()
+				defer m.mu.Unlock()
+				return len(got) >= want
+			})
+			m.Sleep(5 * time.Second)
+			m.Observe("t3=%d got=%d cwnd=%d", A.stats.getNumT3Timeouts(), len(got), A.CWND())
+			m.CloseBoth()
+			m.Join(rd)
+		},
+		Final: func(m *Sim, x *Exec) { generalVerdicts(m, x, false) },
 	}
 }
 
